@@ -93,9 +93,10 @@ def frame(B, cfg, T_, variant):
                 r['Comment'] = 'row of %s' % labels[i]
             r.update(kw)
             rows.append(r)
-        for c, v in enumerate(tr['covs']):
-            row(Observable=COV_NAMES[c], Value=v,
-                Time=(NAN if (i + c) % 2 else 0.0))
+        if not variant.get('cov_rows'):
+            for c, v in enumerate(tr['covs']):
+                row(Observable=COV_NAMES[c], Value=v,
+                    Time=(NAN if (i + c) % 2 else 0.0))
         for (k, t, d, u) in tr['doses']:
             if k == 'D':
                 row(Time=t, Dose=d, Duration=u)
@@ -132,6 +133,25 @@ def frame(B, cfg, T_, variant):
                 if k < len(rows):
                     flat.append(rows[k])
             k += 1
+    if variant.get('cov_rows'):
+        # the covariates as a separate block of rows (a demographics table
+        # appended to / put in front of the measurements), in an ID order of
+        # its own per covariate
+        block = []
+        n_cov = len(T_[0]['covs'])
+        for c in range(n_cov):
+            idx = list(range(len(T_)))
+            if (c + (variant['cov_rows'] == 'end')) % 2:
+                idx = idx[::-1]
+            for i in idx:
+                r = dict(ID=labels[i], Time=NAN, Observable=COV_NAMES[c],
+                         Value=T_[i]['covs'][c])
+                if dosing:
+                    r.update(Dose=NAN, Duration=NAN)
+                if variant.get('extra_column'):
+                    r['Comment'] = 'demographics'
+                block.append(r)
+        flat = flat + block if variant['cov_rows'] == 'end' else block + flat
     cols = ['ID', 'Time', 'Observable', 'Value']
     if dosing:
         cols += ['Dose', 'Duration']
@@ -205,8 +225,10 @@ def case_posterior(B, cfg):
     if cfg.get('explicit_map', False) or cfg['n_out'] > 1 or \
             variant.get('junk') or cfg.get('n_cov', 0):
         outs = user_model(B, cfg).outputs()
-        kw['output_observable_dict'] = {
-            o: OBS_NAMES[k] for k, o in enumerate(outs)}
+        pairs = [(o, OBS_NAMES[k]) for k, o in enumerate(outs)]
+        if variant.get('map_reversed'):
+            pairs = pairs[::-1]     # a dict is a map, whatever its key order
+        kw['output_observable_dict'] = dict(pairs)
     n_cov = cfg.get('n_cov', 0)
     if n_cov:
         kw['covariate_dict'] = {nm: COV_NAMES[c] for c, nm in enumerate(
@@ -357,6 +379,8 @@ def ctrl_names_unfixed(B, cfg, ctrl, ref_names):
 # -------------------------------------------------------------------- jobs
 VARIANTS = [
     {},
+    {'map_reversed': True, 'cov_rows': 'end'},
+    {'cov_rows': 'top', 'order': 'interleaved', 'map_reversed': True},
     {'order': 'interleaved'},
     {'order': 'reversed rows'},
     {'junk': True, 'extra_column': True},
@@ -428,11 +452,12 @@ def jobs(tier):
 
 BOUNDS = dict(
     quick='1-3 individuals with unbalanced sampling times (0-3 measurements '
-          'per output), 1-2 outputs, 7 renderings of every dataset (row '
+          'per output), 1-2 outputs, 9 renderings of every dataset (row '
           'order: blocks / interleaved / reversed; unrelated observable rows '
           'and an extra column; rows with missing value or missing time; '
           'string or integer IDs that do not sort like their order of '
-          'appearance); dosed model with 3 sets of per-individual dose rows '
+          'appearance; the output-observable map in reversed key order; the '
+          'covariates as a separate block of rows in another ID order); dosed model with 3 sets of per-individual dose rows '
           '(with duration, bolus, without time, none) incl. no duration '
           'column; 7 population models (pooled, heterogeneous, non-centred, '
           'multi-dimensional, 1-2 covariates) set before or after the data; '
